@@ -327,6 +327,15 @@ func (r *Run) apply(op Op) {
 	case "delete_node":
 		_ = r.API.Tracker.Delete(NodeGVR, "", op.Arg)
 		r.Probe("node_deleted")
+	case "set_quota": // an administrator edits a queue's deserved GPU quota between cycles
+		for _, q := range r.API.Queues() {
+			if q.Name == op.Arg && q.Spec.Resources != nil {
+				q = q.DeepCopy()
+				q.Spec.Resources.GPU.Quota = float64(op.N)
+				_ = r.API.Tracker.Update(QueueGVR, q, "")
+				r.Probe("queue_quota_edited")
+			}
+		}
 	case "set_backoff":
 		for _, br := range r.API.BindRequests() {
 			if br.Spec.BackoffLimit == nil && br.Status.Phase != bindv1alpha2.BindRequestPhaseSucceeded {
